@@ -310,7 +310,9 @@ def explore(prefix, depth, counters, seen, viols, sigs, budget, sps=SPS, users=N
 
 
 def hostile_field(rng):
-    alpha = [",", "=", " ", "%", "%20", "%2C", "+", "/", "\\", "\n", "\t", "'", '"', "é", "日本", "0=", "4=x", ",4=evil", " 4=evil", "&", ";", ":", "#", "?"]
+    alpha = [",", "=", " ", "%", "%20", "%2C", "+", "/", "\\", "\n", "\t", "'", '"', "é", "日本", "0=", "4=x", ",4=evil", " 4=evil", "&", ";", ":", "#", "?",
+             # what URL quoting leaves as it is, and its neighbours
+             "~", "~proj", "-", ".", "_", "!", "*", "(", ")", "$", "@", "|", "^", "`", "{", "}", "[", "]", "<", ">"]
     return "".join(rng.choice(alpha + [gen.word(rng, 1, 5)]) for _ in range(rng.randint(1, 5)))
 
 
